@@ -16,13 +16,24 @@ theorem c01up_udpFloor_eq (n : Nat) : Translated.c01up_udpFloor n = if n < 2048 
   unfold Translated.c01up_udpFloor
   by_cases h : n < 2048 <;> simp [h, Id.run] <;> first | rfl | omega
 
+/-- bit 1 of a number, as a mask test and arithmetically -/
+theorem land2 (b2 : Nat) : (b2 &&& 2 = 0) ↔ ¬ (b2 / 2 % 2 = 1) := by
+  have h := Wire.testBit_land b2 1
+  unfold Wire.testBit at h
+  have e : (1 <<< 1 : Nat) = 2 := rfl
+  rw [e, Nat.pow_one] at h
+  by_cases h0 : b2 &&& 2 = 0 <;> by_cases h1 : b2 / 2 % 2 = 1 <;> simp_all
+
+/-- canonical form, by evaluating the generated condition in each of the 2·2·2 cases (so the order of the conjuncts
+    and the spelling of the mask / of the comparison in the source do not matter) -/
 theorem c01up_udpTcCut_eq (failed : Bool) (n b2 : Nat) :
     Translated.c01up_udpTcCut failed n b2 = (failed && decide (n ≥ 12) && decide ((b2 / 2) % 2 = 1)) := by
   unfold Translated.c01up_udpTcCut
-  have h := Wire.testBit_land b2 1
-  unfold Wire.testBit at h
-  simp only [Nat.pow_one] at h
-  rw [← h]
+  by_cases h0 : b2 &&& 2 = 0
+  · have h2 : ¬ (b2 / 2 % 2 = 1) := (land2 b2).mp h0
+    cases failed <;> by_cases h1 : n ≥ 12 <;> simp [h0, h1, h2]
+  · have h2 : b2 / 2 % 2 = 1 := Classical.byContradiction fun h => h0 ((land2 b2).mpr h)
+    cases failed <;> by_cases h1 : n ≥ 12 <;> simp [h0, h1, h2]
 
 /-! ### the model's definitions ARE the translated ones -/
 
@@ -36,7 +47,8 @@ theorem udpBuf_translated : udpBuf = Translated.c01up_udpFloor Facts.c01up_udpBu
 
 /-- `msgBuf := pool.GetBuf(int(length))` (`ReadMsgFromTCP`): exactly `length` octets are read after the prefix -/
 theorem tcpBodyLen_translated (length : Nat) : tcpBodyLen length = Translated.c01up_tcpBodyLen length := by
-  unfold Translated.c01up_tcpBodyLen; rfl
+  unfold Translated.c01up_tcpBodyLen tcpBodyLen
+  first | rfl | simp | omega
 
 /-- `err != nil && n >= 12 && b[2]&(1<<1) != 0` (`ReadMsgFromUDP`): with `failed = true` — the `.err` branch of
     `readMsgFromUDPn`, the only place where `headerOnly` is consulted — the condition is `tcCut`; with
@@ -59,11 +71,20 @@ theorem headerOnly_isSome_translated (a b f : UInt8) (rest : Wire.Bytes) :
 
 /-- `if n > 0 { … continue }` (`readLoop`, udp) -/
 theorem udpSkips_translated (n : Nat) : decide (udpSkips n) = Translated.c01up_udpSkip n := by
-  unfold Translated.c01up_udpSkip udpSkips; rfl
+  unfold Translated.c01up_udpSkip udpSkips
+  by_cases h : n = 0
+  · subst h; simp
+  · have h1 : n > 0 := by omega
+    have h2 : n ≥ 1 := by omega
+    have h3 : n ≠ 0 := h
+    simp [h1, h2, h3]
 
 /-- `if r.Header.ID != qid { … error }` (`exchangeConn`) -/
 theorem idMatches_translated (id qid : Nat) : (!decide (idMatches id qid)) = Translated.c01up_reuseIdMismatch id qid := by
   unfold Translated.c01up_reuseIdMismatch idMatches
-  by_cases h : id = qid <;> simp [h]
+  by_cases h : id = qid
+  · subst h; simp
+  · have h' : ¬ qid = id := fun e => h e.symm
+    simp [h, h']
 
 end MosVerif.UpReply
